@@ -48,10 +48,11 @@ def covd_ref(f, df, idx, Gam):
     return out
 
 
-def ref_fn_factory(seed):
+def ref_fn_factory(seed, poly=False):
     def ref_fn(r):
         t, x, y, z = r.coords
-        sc, v3, v4, tn = fields.test_fields(seed)
+        sc, v3, v4, tn = (fields.poly_test_fields(seed) if poly
+                          else fields.test_fields(seed))
         f, V, U, T = sc(t, x, y, z, M), v3(t, x, y, z, M), \
             v4(t, x, y, z, M), tn(t, x, y, z, M)
         sp = r.spatial()
@@ -150,7 +151,8 @@ def case(task):
         for N in Ns:
             rel, st, (X, Y, Z), inp = gc.build_core(desc, seed, p, N,
                                                     with_T=False)
-            ref = gc.ref_chunks(st, fields.T0, X, Y, Z, ref_fn_factory(seed))
+            ref = gc.ref_chunks(st, fields.T0, X, Y, Z, ref_fn_factory(
+                seed, poly=desc[0] == 'poly'))
             f, V, U, T = ref['in:f'], ref['in:V'], ref['in:U'], ref['in:T']
             got = {}
             with gc.quiet():
@@ -256,6 +258,9 @@ def build_tasks(tier, seed):
         tasks.append((('lattice', 'L1', 'S3', 'G2', 'D1', 0.0), p, (16, 32),
                       seed))
     tasks.append((('mink',), 8, (16, 32), seed))
+    # exact skeleton: polynomial data, stencils exact, one resolution
+    for p in (2, 4, 8):
+        tasks.append((('poly',), p, (13, 14), seed))
     return tasks
 
 
@@ -277,7 +282,19 @@ def main(tier):
             run.count('comparisons')
             if nontrivial:
                 run.count('nontrivial_comparisons')
-            ok, why = gc.converges(e_lo, e_hi, p, cap=gc.CAPS[p])
+            if desc[0] == 'poly':
+                # gamma^{ij} and the Christoffels are rational functions:
+                # finite differences of them are not exact
+                exact = not (k in CURV or k.startswith('s_Ricci')
+                             or k in ('ident:split', 'ident:Dgammaup'))
+                if exact:
+                    ok = e_lo <= 1e-10 and e_hi <= 1e-10
+                    why = (f"exact skeleton (polynomial data): "
+                           f"{e_lo:.2e},{e_hi:.2e}")
+                else:
+                    continue      # curvature of rational Gammas: not exact
+            else:
+                ok, why = gc.converges(e_lo, e_hi, p, cap=gc.CAPS[p])
             if ok and p == 8:
                 worst[k.split(':')[0]] = max(worst.get(k.split(':')[0], 0.0),
                                              e_hi)
